@@ -19,6 +19,10 @@ From Coq Require Import List Arith Bool PeanoNat ZArith.
 Require Import Num.
 Import ListNotations.
 
+(* a cache entry as CacheEntryInfo sees it: value, m_dependsOnVersionWhenLastComputed, m_isUpToDateWithPrerequisites *)
+Record ce (A : Type) := mkCe { ce_val : A; ce_ver : nat; ce_ok : bool }.
+Arguments mkCe {A}. Arguments ce_val {A}. Arguments ce_ver {A}. Arguments ce_ok {A}.
+
 Section Model.
 Context {T : Type} (K : NumOps T).
 
@@ -50,8 +54,6 @@ Definition set_var (E : env) (i : nat) (x : T) : env :=
 
 (* a cache entry as CacheEntryInfo sees it: value, m_dependsOnVersionWhenLastComputed, m_isUpToDateWithPrerequisites.
    All measure entries are lazy (computedBy = Infinity), so CacheEntryInfo::isUpToDate is the three-way test below. *)
-Record ce (A : Type) := mkCe { ce_val : A; ce_ver : nat; ce_ok : bool }.
-Arguments mkCe {A}. Arguments ce_val {A}. Arguments ce_ver {A}. Arguments ce_ok {A}.
 Definition valid {A} (E : env) (D : nat) (c : ce A) : bool :=
   (D <=? e_stage E) && (ver_at E D =? ce_ver c) && ce_ok c.
 Definition mark {A} (E : env) (D : nat) (v : A) : ce A := mkCe v (ver_at E D) true.
